@@ -53,6 +53,10 @@ CHECKS = {
     text="Kernel-checked for every world, store and request: without the eval stage nothing runs, nothing is stored or committed (analysis_only); without path_commit every path is as it was (no_commit); the signatures do not depend on the stage list or flags (sigs_stage_independent); _parse_stages accepts exactly prefixes of the stage order (parse_prefix); the stage order is re-read from the enum in the code on every run (stage_table over Generated/Facts.lean). Correspondence + oracle over generated pipelines x every prefix x spellings (lower/upper/mixed case, enum members) x stores, interleaved with full runs; invalid lists refused.",
     note="dds_stages exists on dds.eval only; 'a later full evaluation returns the same values' is decided by the oracle (value == plain execution after restricted runs); sampled",
     technique="Lean 4 proof (case analysis of evalStep + frame lemma) + facts table regenerated from the code + differential runs"),
+ "C09": dict(
+    text="Model of loads in both analysis passes, the load-order check and run-time resolution, agreeing with the implementation on all 32 combinations placement {root, helper, kept function, data function} x producer {data function, keep} x order {before, after, earlier evaluation, never}, each with re-evaluation, producer edit and unrelated edit. Kernel-checked (stage 1): an ill-ordered evaluation returns the DDS error, runs nothing and leaves the store untouched (order_rejected); inside an evaluation a load of a path kept by this evaluation reads the blob under this evaluation's key, other paths resolve through the committed table (load_uses_own_key / load_uses_committed_key); a loaded path that does not resolve fails the analysis (load_must_resolve). Implementation oracle: loaded and returned values equal the dds-free run, kept readers re-execute iff the producer's result changed.",
+    note="PARTIAL proof: reader_sig_tracks_producer as an iff needs the injectivity of signature composition (stage 2); the exhaustive combination matrix is decided by correspondence + oracle",
+    technique="Lean 4 model + proved lemmas; exhaustive directed matrix of load placements/orders with three-way differential execution"),
 }
 NOT_YET = "check not built yet in this round (work in progress, see DESIGN.md §10)"
 
